@@ -169,13 +169,21 @@ def strip_lean_comments(src: str) -> str:
 
 
 def lean_files_for(pid: str) -> list[Path]:
-    """Source files whose content the property's theorems depend on (for the forbidden grep)."""
-    files = []
-    for sub in ("Model", "Props", "Lemmas", "Gen", "Analysis"):
-        d = LEAN_DIR / "GemseoVerif" / sub
-        if d.is_dir():
-            files += sorted(d.glob("*.lean"))
-    return files
+    """Source files the property's theorems depend on: transitive `import GemseoVerif.*` closure of
+    Props/<pid>.lean (for the forbidden-token grep; other properties' files are not our business)."""
+    seen: dict[str, Path] = {}
+    todo = [f"GemseoVerif.Props.{pid}"]
+    while todo:
+        mod = todo.pop()
+        if mod in seen:
+            continue
+        path = LEAN_DIR / (mod.replace(".", "/") + ".lean")
+        if not path.exists():
+            continue
+        seen[mod] = path
+        for m in re.finditer(r"^import\s+(GemseoVerif\.\S+)", path.read_text(), re.M):
+            todo.append(m.group(1))
+    return sorted(seen.values())
 
 
 def property_theorems(pid: str) -> list[str]:
@@ -275,9 +283,9 @@ def parse_print_axioms(out: str) -> dict[str, list[str]]:
     res: dict[str, list[str]] = {}
     # "'name' depends on axioms: [a, b]" (possibly multi-line) or "'name' does not depend on any axioms"
     text = out.replace("\n", " ")
-    for m in re.finditer(r"'([^']+)' depends on axioms: \[([^\]]*)\]", text):
+    for m in re.finditer(r"'(\S+?)' depends on axioms: \[([^\]]*)\]", text):
         res[m.group(1)] = [a.strip() for a in m.group(2).split(",") if a.strip()]
-    for m in re.finditer(r"'([^']+)' does not depend on any axioms", text):
+    for m in re.finditer(r"'(\S+?)' does not depend on any axioms", text):
         res[m.group(1)] = []
     return res
 
